@@ -9,6 +9,7 @@ mod c05;
 mod c06;
 mod c07;
 mod c08;
+mod c09;
 mod c10;
 mod c13;
 mod c15;
@@ -38,6 +39,7 @@ fn main() {
         "c08" => c08::main(&args),
         "c08-one" => c08::one(&args),
         "c08-replay" => c08::replay_one(&args),
+        "c09" => c09::main(&args),
         "c10" => c10::main(&args),
         "c13" => c13::main(&args),
         "c15" => c15::main(&args),
